@@ -5,6 +5,8 @@ package harness
 // half-closes the connection and keeps draining.
 
 import (
+	"sync/atomic"
+	"errors"
 	"fmt"
 	"os"
 	"regexp"
@@ -14,6 +16,7 @@ import (
 	"time"
 
 	xmpp "gosrc.io/xmpp"
+	"gosrc.io/xmpp/stanza"
 	"pgregory.net/rapid"
 	"verifharness/peer"
 	"verifharness/vh"
@@ -36,8 +39,13 @@ type c12Case struct {
 	// auth or at bind, a session that was lost, one the server ended with a stream error, or one the application
 	// closed with Disconnect
 	Prior string `json:"prior,omitempty"`
+	// AckThenGone (plain TCP, stream management): the application has sent 2-3 stanzas; the last thing the server sends
+	// (the whole feed goes out) is an <a h='0'/>, which makes the client send them again - to a server that has closed
+	// the connection completely, so that those writes fail while the loss is being noticed. Still exactly one report.
+	AckThenGone int `json:"ack_then_gone,omitempty"` // number of stanzas sent beforehand (0 = off)
 }
 
+// (AckThenGone below)
 var c12Priors = []string{"auth-failed", "bind-failed", "lost", "stream-error", "disconnected"}
 
 var c12Rich = map[string]string{
@@ -70,6 +78,9 @@ func (c *c12Case) feed() (data string, ends []int, ids []string) {
 			ends = append(ends, sb.Len())
 			ids = append(ids, id)
 		}
+	}
+	if c.AckThenGone > 0 {
+		sb.WriteString("<a xmlns='urn:xmpp:sm:3' h='0'/>")
 	}
 	return sb.String(), ends, ids
 }
@@ -158,6 +169,10 @@ func genC12(t *rapid.T) c12Case {
 	}
 	c.Logger = rapid.IntRange(0, 2).Draw(t, "logger") == 0
 	c.Together = rapid.Bool().Draw(t, "together")
+	if !c.WS && !c.TLS && c.SM && rapid.IntRange(0, 3).Draw(t, "ackThenGone") == 0 {
+		c.AckThenGone = rapid.IntRange(2, 3).Draw(t, "unacked")
+		c.Together = false
+	}
 	if !c.WS && rapid.IntRange(0, 3).Draw(t, "hasPrior") == 0 {
 		c.Prior = rapid.SampledFrom(c12Priors).Draw(t, "prior")
 	}
@@ -224,6 +239,10 @@ func runC12(c c12Case) vh.Result {
 			want = append(want, ids[i])
 		}
 	}
+	if c.AckThenGone > 0 {
+		cut = len(data) // everything is sent, the <a/> last
+		want = ids
+	}
 	cls := offsetClass(data, cut)
 	res.Label("cut-" + cls)
 	if c.SM {
@@ -246,6 +265,8 @@ func runC12(c c12Case) vh.Result {
 		return runC12WS(c, res, baseline)
 	}
 	priorUp := make(chan struct{}, 1)
+	writesArmed := make(chan struct{})
+	var failWrites atomic.Bool
 	srv, err := peer.Listen(func(pc *peer.Conn) {
 		if c.Prior != "" && pc.Index == 0 {
 			ps := &peer.Script{Mechs: []string{"PLAIN"}, OfferTLS: c.TLS, TLS12: c.TLS12, Cert: "valid"}
@@ -279,6 +300,23 @@ func runC12(c c12Case) vh.Result {
 		out := pc.Negotiate(script, 10*time.Second)
 		if !out.Established {
 			failc <- fmt.Sprint(out.Steps)
+			return
+		}
+		if c.AckThenGone > 0 {
+			// wait for the stanzas the application sends, then: the feed, and the connection closed for good
+			for n := 0; n < c.AckThenGone; {
+				ev := pc.NextElem(5 * time.Second)
+				if ev.Kind != "elem" {
+					break
+				}
+				if ev.Name.Local == "message" {
+					n++
+				}
+			}
+			<-writesArmed // from here on the client's writes fail: the connection is as good as gone
+			pc.Send(data[:cut])
+			close(cutDone)
+			pc.GracefulClose(300 * time.Millisecond)
 			return
 		}
 		if c.Together {
@@ -359,6 +397,37 @@ func runC12(c c12Case) vh.Result {
 	if err := cl.Connect(); err != nil {
 		res.Fail("harness-connect", "Connect (prior=%q tls=%v tls12=%v sm=%v): %v", c.Prior, c.TLS, c.TLS12, c.SM, err)
 		return res
+	}
+	if c.AckThenGone > 0 {
+		res.Label("ack-then-connection-gone")
+		// the writes that follow the <a/> fail in a wrapped Transport (on a real socket the first write after the
+		// peer has gone usually still succeeds)
+		wrap := &stubTransport{inner: xmpp.VerifGetTransport(cl)}
+		wrap.writeFault = func(p []byte, inner xmpp.Transport) (bool, int, error) {
+			if failWrites.Load() {
+				return true, 0, errors.New("write: broken pipe (injected)")
+			}
+			return false, 0, nil
+		}
+		xmpp.VerifSetTransport(cl, wrap)
+		defer func() {
+			failWrites.Store(true)
+			select {
+			case <-writesArmed:
+			default:
+				close(writesArmed)
+			}
+		}()
+		for i := 0; i < c.AckThenGone; i++ {
+			m := stanza.NewMessage(stanza.Attrs{To: "a@localhost", Id: fmt.Sprintf("held-%d", i)})
+			m.Body = "held"
+			if err := cl.Send(m); err != nil {
+				res.Fail("harness-send", "Send before the feed failed: %v", err)
+				return res
+			}
+		}
+		failWrites.Store(true)
+		close(writesArmed)
 	}
 	select {
 	case <-cutDone:
@@ -484,7 +553,7 @@ func runC12(c c12Case) vh.Result {
 
 var c12 = vh.Define(&vh.Def[c12Case]{
 	Property: "C12", Name: "cut",
-	Rule: "an inbound stream of 1-10 elements (plain and rich stanzas: entities, character references, CDATA incl. ]]> splitting, attributes containing > and quotes, comments, nested same-name descendants; <r/>, <a/>, features) is cut at a generated byte offset (one quarter exactly between elements, the rest uniformly), with and without stream management, over plain TCP, STARTTLS (TLS 1.3 or capped at 1.2) or WebSocket (connection dropped between messages), with and without the traffic logger, in a quarter of the TCP cases after the same Client went through an attempt refused at auth or bind, a lost session, a session ended by a stream error or its own Disconnect (events are counted from there), the prefix and the end of the stream leaving the server in separate segments or in one; the peer sends the prefix, half-closes and keeps draining; keepalive interval 15 ms; oracle: at most one error callback and one Disconnected event and at least one of each within the margin, the event carries the SM id when SM is on, every stanza that ended before the cut is routed once and no other, no goroutine with a library frame that did not exist before the case survives (runtime.Stack poll), no keepalive write reaches the peer afterwards; non-trivial = the cut falls strictly inside an element",
+	Rule: "an inbound stream of 1-10 elements (plain and rich stanzas: entities, character references, CDATA incl. ]]> splitting, attributes containing > and quotes, comments, nested same-name descendants; <r/>, <a/>, features) is cut at a generated byte offset (one quarter exactly between elements, the rest uniformly), with and without stream management, over plain TCP, STARTTLS (TLS 1.3 or capped at 1.2) or WebSocket (connection dropped between messages), with and without the traffic logger, in a quarter of the TCP cases after the same Client went through an attempt refused at auth or bind, a lost session, a session ended by a stream error or its own Disconnect (events are counted from there), in a quarter of the plain stream-managed cases the application has 2-3 unacknowledged stanzas, the server's last element is an <a h='0'/> and the server is gone for good when they are sent again; the prefix and the end of the stream leaving the server in separate segments or in one; the peer sends the prefix, half-closes and keeps draining; keepalive interval 15 ms; oracle: at most one error callback and one Disconnected event and at least one of each within the margin, the event carries the SM id when SM is on, every stanza that ended before the cut is routed once and no other, no goroutine with a library frame that did not exist before the case survives (runtime.Stack poll), no keepalive write reaches the peer afterwards; non-trivial = the cut falls strictly inside an element",
 	Quick: 300, Thorough: 6000, Journal: true,
 	Gen: genC12, Run: runC12,
 })
